@@ -3,7 +3,7 @@
 * `c09Parts`      – for every `ElementBase` subclass under `classy_blocks.base` / `classy_blocks.construct` that defines
                     `parts`: the attributes listed in the returned list, in order (`*name` = a whole list of parts);
 * `c09PartsPre`   – the statements a `parts` property executes before it returns (side effects of looking at an entity);
-* `c09Center`     – the expression `center` returns (comprehension variables renamed to `x`, a property that only
+* `c09Center`     – the expression `center` returns (names bound inside the expression renamed `v0, v1, …`, a property that only
                     forwards to another property of the same class is inlined, `warnings.warn` statements dropped);
 * `c09MethodDefaults` / `c09ListDefaults` – the default origin of `ElementBase.rotate/scale/mirror` and of every
                     branch of `ElementBase.transform`, in branch order;
@@ -92,21 +92,61 @@ def _part_items(e: ast.expr) -> List[str]:
 
 
 class _Rename(ast.NodeTransformer):
-    def __init__(self, names):
-        self.names = names
+    def __init__(self, mapping):
+        self.m = mapping
 
     def visit_Name(self, node):
-        if node.id in self.names:
-            return ast.copy_location(ast.Name(id="x", ctx=node.ctx), node)
+        if node.id in self.m:
+            return ast.copy_location(ast.Name(id=self.m[node.id], ctx=node.ctx), node)
         return node
 
 
+def _bound_names(e: ast.AST) -> List[str]:
+    """names bound inside an expression / statement list (comprehension variables, lambda parameters, assignment
+    targets), in order of first appearance in the text"""
+    order: List[str] = []
+
+    def visit(n):
+        if isinstance(n, ast.Name) and isinstance(n.ctx, ast.Store) and n.id not in order:
+            order.append(n.id)
+        if isinstance(n, ast.Lambda):
+            for a in n.args.args:
+                if a.arg not in order:
+                    order.append(a.arg)
+        for c in ast.iter_child_nodes(n):
+            visit(c)
+
+    visit(e)
+    return order
+
+
 def _normal_expr(e: ast.expr) -> str:
-    names = set()
-    for n in ast.walk(e):
-        if isinstance(n, ast.comprehension) and isinstance(n.target, ast.Name):
-            names.add(n.target.id)
-    return ast.unparse(_Rename(names).visit(e))
+    """the expression with its own bound names renamed v0, v1, … (canonical literals via ast.unparse)"""
+    import copy
+
+    e = copy.deepcopy(e)
+    names = _bound_names(e)
+    return " ".join(ast.unparse(_Rename({n: f"v{i}" for i, n in enumerate(names)}).visit(e)).split())
+
+
+def _is_none_test(test: ast.expr) -> Optional[str]:
+    """`<name> is None` -> name"""
+    if isinstance(test, ast.Compare) and isinstance(test.left, ast.Name) and len(test.ops) == 1 and isinstance(test.ops[0], ast.Is) \
+            and isinstance(test.comparators[0], ast.Constant) and test.comparators[0].value is None:
+        return test.left.id
+    return None
+
+
+def _default_when_none(node: ast.AST) -> Optional[ast.expr]:
+    """the value given in `if <x> is None: <x> = <value>` (whatever <x> is called)"""
+    for s in ast.walk(node):
+        if isinstance(s, ast.If):
+            x = _is_none_test(s.test)
+            if x is not None:
+                for b in s.body:
+                    if isinstance(b, ast.Assign) and isinstance(b.targets[0], ast.Name) and b.targets[0].id == x:
+                        return b.value
+    return None
 
 
 def _parts_tables(classes) -> Tuple[List[Tuple[str, List[str]]], List[Tuple[str, List[str]]]]:
@@ -162,68 +202,109 @@ def _center_table(classes) -> List[Tuple[str, str]]:
     return out
 
 
-def _element_tables():
+def _calls_on(loop: ast.For) -> List[str]:
+    """methods called on the loop variable inside a `for <x> in …` loop"""
+    if not isinstance(loop.target, ast.Name):
+        return []
+    out = []
+    for b in ast.walk(loop):
+        if isinstance(b, ast.Call) and isinstance(b.func, ast.Attribute) and isinstance(b.func.value, ast.Name) \
+                and b.func.value.id == loop.target.id and b.func.attr not in out:
+            out.append(b.func.attr)
+    return out
+
+
+def _element_methods():
     import classy_blocks.base.element as el
 
     cdef = _class_ast(el.ElementBase)
     method_defaults, recursion = [], []
     for mname in ("translate", "rotate", "scale", "mirror"):
         fn = _method(cdef, mname)
-        dflt = "-"
+        d = _default_when_none(fn)
         called = []
         for s in ast.walk(fn):
-            if isinstance(s, ast.If) and ast.unparse(s.test) == "origin is None":
-                for b in s.body:
-                    if isinstance(b, ast.Assign) and ast.unparse(b.targets[0]) == "origin":
-                        dflt = ast.unparse(b.value)
             if isinstance(s, ast.For) and ast.unparse(s.iter) == "self.parts":
-                for b in ast.walk(s):
-                    if isinstance(b, ast.Call) and isinstance(b.func, ast.Attribute) and isinstance(b.func.value, ast.Name) \
-                            and b.func.value.id == s.target.id:
-                        called.append(b.func.attr)
-        method_defaults.append((mname, dflt))
+                called += _calls_on(s)
+        method_defaults.append((mname, "-" if d is None else _normal_expr(d)))
         recursion.append((mname, called))
+    return method_defaults, recursion
 
-    fn = _method(cdef, "transform")
-    branches = []
+
+class _NoAnnotations(ast.NodeTransformer):
+    """`x: T = e` reads as `x = e`"""
+
+    def visit_AnnAssign(self, node):
+        if node.value is None:
+            return None
+        return ast.copy_location(ast.Assign(targets=[node.target], value=node.value), node)
+
+
+def _element_transform():
+    import classy_blocks.base.element as el
+
+    fn = _NoAnnotations().visit(_method(_class_ast(el.ElementBase), "transform"))
+    # locals assigned exactly once from an expression: a default origin that names one reads as that expression
+    assigned = {}
     for s in ast.walk(fn):
+        if isinstance(s, ast.Assign) and isinstance(s.targets[0], ast.Name):
+            assigned.setdefault(s.targets[0].id, []).append(s.value)
+
+    def resolve(e: ast.expr) -> str:
+        if isinstance(e, ast.Name) and len(assigned.get(e.id, [])) == 1:
+            return _normal_expr(assigned[e.id][0])
+        return _normal_expr(e)
+
+    outer = [s for s in ast.walk(fn) if isinstance(s, ast.For) and isinstance(s.iter, ast.Name)
+             and s.iter.id in [a.arg for a in fn.args.args]]
+    if not outer:
+        raise ValueError("ElementBase.transform: no loop over the transformation list")
+    loop = outer[0]
+    body = [b for b in loop.body if not (isinstance(b, ast.Expr) and isinstance(b.value, ast.Constant))]
+    first = body[0]
+    first_text = _normal_expr(first.value) if isinstance(first, ast.Assign) else "?" + " ".join(ast.unparse(first).split())
+    branches = []
+    for s in ast.walk(loop):
         if isinstance(s, ast.For) and ast.unparse(s.iter) == "self.parts":
             for b in s.body:
                 if isinstance(b, ast.If) and isinstance(b.test, ast.Call) and ast.unparse(b.test.func) == "isinstance":
                     cls = ast.unparse(b.test.args[1]).split(".")[-1]
-                    dflt = "-"
-                    called = []
-                    for c in ast.walk(b):
-                        if isinstance(c, ast.If) and ast.unparse(c.test) == "origin is None":
-                            for a in c.body:
-                                if isinstance(a, ast.Assign):
-                                    dflt = ast.unparse(a.value)
-                        if isinstance(c, ast.Call) and isinstance(c.func, ast.Attribute) and isinstance(c.func.value, ast.Name) \
-                                and c.func.value.id == s.target.id:
-                            called.append(c.func.attr)
-                    branches.append((cls, dflt, called))
-    # where `center` of the transformation list comes from: the statement `center = self.center` is the first of the loop body
-    first = ""
-    for s in ast.walk(fn):
-        if isinstance(s, ast.For) and ast.unparse(s.iter) == "transforms":
-            first = ast.unparse(_body(s)[0]) if isinstance(s, ast.For) else ""
-            first = ast.unparse([b for b in s.body if not (isinstance(b, ast.Expr) and isinstance(b.value, ast.Constant))][0])
-    return method_defaults, recursion, branches, first
+                    d = _default_when_none(b)
+                    called = [c for c in _calls_on(s) if any(
+                        isinstance(x, ast.Call) and isinstance(x.func, ast.Attribute) and x.func.attr == c for x in ast.walk(b))]
+                    branches.append((cls, "-" if d is None else resolve(d), called))
+    return branches, first_text
 
 
 def emit_all(emit):
+    guard = getattr(emit, "guard", lambda fn, *a, **k: fn(*a, **k))
     classes = _classes()
-    parts, pre = _parts_tables(classes)
-    emit("c09Parts", "List (String × List String)", [(n, list(v)) for n, v in parts],
-         "class -> entries of the list `parts` returns, in order (`*a` = the list self.a, `self` = the object itself)")
-    emit("c09PartsPre", "List (String × List String)", [(n, list(v)) for n, v in pre],
-         "class -> statements its `parts` property executes before returning")
-    emit("c09Center", "List (String × String)", _center_table(classes),
-         "class -> the expression `center` returns (comprehension variable renamed to x)")
-    md, rec, branches, first = _element_tables()
-    emit("c09MethodDefaults", "List (String × String)", md, "ElementBase.<method>: value given to `origin` when it is None")
-    emit("c09Recursion", "List (String × List String)", [(n, list(v)) for n, v in rec],
-         "ElementBase.<method>: methods called on every part")
-    emit("c09ListDefaults", "List (String × String × List String)", [(c, d, list(m)) for c, d, m in branches],
-         "ElementBase.transform: (transformation class, default origin, methods called on every part), in branch order")
-    emit("c09ListCenterFirst", "String", first, "first statement of the loop over the transformation list")
+
+    def g_parts():
+        parts, pre = _parts_tables(classes)
+        emit("c09Parts", "List (String × List String)", [(n, list(v)) for n, v in parts],
+             "class -> entries of the list `parts` returns, in order (`*a` = the list self.a, `self` = the object itself)")
+        emit("c09PartsPre", "List (String × List String)", [(n, list(v)) for n, v in pre],
+             "class -> statements its `parts` property executes before returning")
+
+    def g_center():
+        emit("c09Center", "List (String × String)", _center_table(classes),
+             "class -> the expression `center` returns (bound names renamed v0, v1, …; warn statements dropped)")
+
+    def g_methods():
+        md, rec = _element_methods()
+        emit("c09MethodDefaults", "List (String × String)", md, "ElementBase.<method>: value given to the origin when it is None")
+        emit("c09Recursion", "List (String × List String)", [(n, list(v)) for n, v in rec],
+             "ElementBase.<method>: methods called on every part")
+
+    def g_transform():
+        branches, first = _element_transform()
+        emit("c09ListDefaults", "List (String × String × List String)", [(c, d, list(m)) for c, d, m in branches],
+             "ElementBase.transform: (transformation class, default origin with single-assignment locals resolved, "
+             "methods called on every part), in branch order")
+        emit("c09ListCenterFirst", "String", first,
+             "what the first statement of the loop over the transformation list assigns (the centre is taken before any part moves)")
+
+    # every group is an independent `ast` reading of the current source: one that fails leaves the others in place
+    for g in (g_parts, g_center, g_methods, g_transform):
+        guard(g)
